@@ -613,8 +613,8 @@ def check_C16(ctx):
         ctx.notes[k] = st[k]
     mism = run_tv(ctx, "TV_Locations", recs, timeout=6000, shards=12)
     def alias_in_complex_key(rec, d):
-        """an alias token somewhere inside a sequence / mapping that stands in key position"""
-        if not (isinstance(d, dict) and d.get("verdict") == "referenced-names-wrong-site"):
+        """an alias token, a merge entry or an anchor definition somewhere inside a sequence / mapping that stands in key position"""
+        if not (isinstance(d, dict) and d.get("verdict") in ("referenced-names-wrong-site", "merged-entry-not-attributed-to-its-merge")):
             return False
         stack = []          # [is_map, expecting_key, inside_key]
         for e in rec.get("raw", []):
@@ -623,11 +623,13 @@ def check_C16(ctx):
             inside = bool(top and top[2])
             k = e.get("k")
             if k in ("S", "AL"):
-                if k == "AL" and inside:
+                if inside and (k == "AL" or e.get("a") or (e.get("v") == "<<" and e.get("q") == "p")):
                     return True
                 if top and top[0]:
                     top[1] = not top[1]
             elif k in ("SS", "MS"):
+                if (inside or at_key) and e.get("a"):
+                    return True
                 if top and top[0]:
                     top[1] = not top[1]
                 stack.append([k == "MS", True, inside or at_key])
